@@ -594,7 +594,7 @@ type runner struct {
 }
 
 func (r *runner) start(restart bool) error {
-	opts := sut.Options{DataDir: r.dataDir, Env: map[string]string{"VERIF_LOGLEVEL": "error"}, Timeout: 45 * time.Second}
+	opts := sut.Options{DataDir: r.dataDir, Env: map[string]string{"VERIF_LOGLEVEL": "error"}, Timeout: 120 * time.Second}
 	if restart && pt.KnownFindingOpen(kfMetaWal) {
 		// Known finding C08-meta-wal-stale-entry: at start-up RecoverMEntryWALData appends the last
 		// 1-second snapshot of the meta-entry WAL to metricmeta.json. If that snapshot was taken
@@ -622,7 +622,19 @@ func (r *runner) call(req *sut.Req, out interface{}, what string) error {
 		return fmt.Errorf("server process died during %s: %s", what, pt.CrashDetail(r.c))
 	}
 	if errors.Is(err, sut.ErrTimeout) {
-		return pt.Inconclusivef("%s timed out", what)
+		// the client has sent SIGQUIT: the goroutine dump tells a stall of the machine from a deadlock
+		dump := r.c.Stderr()
+		if i := strings.Index(dump, "c08.op"); i > 0 && len(dump) > 3000 {
+			lo := i - 1500
+			if lo < 0 {
+				lo = 0
+			}
+			dump = dump[lo:]
+		}
+		if len(dump) > 3000 {
+			dump = dump[:3000]
+		}
+		return pt.Inconclusivef("%s timed out; goroutines:\n%s", what, dump)
 	}
 	var oe *sut.OpError
 	if errors.As(err, &oe) && strings.HasPrefix(oe.Msg, "PANIC") {
